@@ -156,10 +156,24 @@ func auditLinks(a *ugen.Arena, allow []string, when string, born map[string]int,
 		// Unpack was given and for the physical path
 		lex1 := ugen.LexicalTarget(a.SpelledAbs(), l.rel, l.target)
 		lex2 := ugen.LexicalTarget(a.Dst, l.rel, l.target)
+		// The caller allowed a place. A link is covered if that is where it leads -
+		// or where its target reads as leading, provided the text and the
+		// operating system agree (links met inside the allowed place itself
+		// are the caller's business, links of the archive are not).
 		allowed := false
 		for _, p := range allow {
-			if fsx.Inside(p, res) || fsx.Inside(p, lex1) || fsx.Inside(p, lex2) {
+			if fsx.Inside(p, res) {
 				allowed = true
+			}
+			for _, lex := range []string{lex1, lex2} {
+				if !fsx.Inside(p, lex) {
+					continue
+				}
+				if phys, _, lloop := fsx.Resolve("/", lex); !lloop && phys == res {
+					allowed = true
+				} else {
+					ev.Label("reads-as-allowed-but-leads-elsewhere")
+				}
 			}
 		}
 		if allowed {
